@@ -85,7 +85,24 @@ func fqListTok(l []string, strs map[string]int64) int64 {
 	return t
 }
 
+// fqBase: the real timestamps of a scenario are fqBase + the small timestamps of its records (nanoseconds since the
+// epoch in half of the scenarios, where float64 no longer tells neighbours apart); emissions are logged minus fqBase, so
+// the specification reads the small ones. (Scenarios run one at a time.)
+var fqBase int64
+
 func genFqConfig(r *rand.Rand, strs map[string]int64) ([]*fpb.Value, []fqVal, int64) {
+	vals, recs, latest := genFqConfig0(r, strs)
+	fqBase = 0
+	if r.Intn(2) == 0 {
+		fqBase = 1_700_000_000_000_000_000 + r.Int63n(1024)
+	}
+	for _, v := range vals {
+		v.Timestamp.Timestamp += fqBase
+	}
+	return vals, recs, latest
+}
+
+func genFqConfig0(r *rand.Rand, strs map[string]int64) ([]*fpb.Value, []fqVal, int64) {
 	n := 1 + r.Intn(5)
 	var vals []*fpb.Value
 	var recs []fqVal
@@ -269,7 +286,7 @@ func fqRun(vals []*fpb.Value, latest int64, seed int64, limit int, strs map[stri
 		if id == "" {
 			id = "xsync" // the configuration's own sync value (the injected marker has the path "sync" here)
 		}
-		out = append(out, fqEm{id, v.GetTimestamp().GetTimestamp(), fqTok(v, strs), v.GetRepeat()})
+		out = append(out, fqEm{id, v.GetTimestamp().GetTimestamp() - fqBase, fqTok(v, strs), v.GetRepeat()})
 	}
 	return out, "limit"
 }
@@ -333,9 +350,9 @@ func fqAgentRun(vals []*fpb.Value, seed int64, limit int, strs map[string]int64)
 			out = append(out, fqEm{id, lastTs, 1, -1})
 		case resp.GetUpdate() != nil:
 			n := resp.GetUpdate()
-			lastTs = n.GetTimestamp()
+			lastTs = n.GetTimestamp() - fqBase
 			for _, d := range n.GetDelete() {
-				out = append(out, fqEm{strings.Join(d.GetElement(), "/"), n.GetTimestamp(), 7, -1})
+				out = append(out, fqEm{strings.Join(d.GetElement(), "/"), n.GetTimestamp() - fqBase, 7, -1})
 			}
 			for _, u := range n.GetUpdate() {
 				tok := int64(-99)
@@ -364,7 +381,7 @@ func fqAgentRun(vals []*fpb.Value, seed int64, limit int, strs map[string]int64)
 					}
 					tok = fqListTok(l, strs)
 				}
-				out = append(out, fqEm{strings.Join(u.GetPath().GetElement(), "/"), n.GetTimestamp(), tok, -1})
+				out = append(out, fqEm{strings.Join(u.GetPath().GetElement(), "/"), n.GetTimestamp() - fqBase, tok, -1})
 			}
 		}
 	}
